@@ -350,7 +350,9 @@ func (c *VirtualTable) Commit() error {
 
 func (c *VirtualTable) Sync() error {
 	if c.common.S3Options.ReadOnly {
-		return nil
+		// nothing to publish; end the transaction that a write statement matching
+		// no row has begun, or every later one fails with "already in progress"
+		return toSqlite(c.common.Rollback())
 	}
 
 	return toSqlite(c.common.Commit(c.module.sc.ctx))
